@@ -43,8 +43,13 @@ def obligations(tier, seed):
     obs.append(dict(name='expr/hash160(0x..)', kind='expr', fun='hash160', L=3))
     for L in (0, 1, 2):
         obs.append(dict(name='base58/roundtrip/L%d/chk0' % L, kind='b58', L=L, chk=0))
+    # base58 decoding of ARBITRARY short strings (alphabet membership, leading '1's, surrounding white space, digit values), not only of encoder output
+    for n in (1, 2) if tier == 'quick' else (1, 2, 3): obs.append(dict(name='base58/decode-any/n%d' % n, kind='b58dec', n=n))
     # base58check: the checksum logic on its own (the base-58 digit conversion is cut out by a stub, so payload and checksum bytes can be fully symbolic)
     for L in (0, 1, 20, 21, 33): obs.append(dict(name='base58check/decode-checksum/L%d' % L, kind='b58chk_dec', L=L)); obs.append(dict(name='base58check/encode-checksum/L%d' % L, kind='b58chk_enc', L=L))
+    # address <-> scriptPubKey conversion (P2PKH): same stubs, the 20-byte hash / decoded payload symbolic
+    obs.append(dict(name='address/scriptpubkey-to-addr', kind='spk2addr', L=25)); obs.append(dict(name='address/scriptpubkey-to-addr/24-bytes', kind='spk2addr', L=24)); obs.append(dict(name='address/scriptpubkey-to-addr/26-bytes', kind='spk2addr', L=26))
+    for L in (20, 21, 22): obs.append(dict(name='address/addr-to-scriptpubkey/payload%d' % L, kind='addr2spk', L=L))
     for n in (0, 1) if tier == 'quick' else (0, 1, 2, 3):
         for m in (0, 1): obs.append(dict(name='bech32/roundtrip/n%d/m%d' % (n, m), kind='bech', n=n, m=m))
     for m in (0, 1):
@@ -159,6 +164,40 @@ def prep(ob, V=None):
             raw = outs[0](n); rp = sesslib.Rep(lambda off, n_: (hlib.le(raw[off:off + n_]) if n_ > 1 else raw[off]), (lambda t: hlib.uniq(E, f, t)) if f is not None else None)
             return dict(ok=rp.u32(), back=rp.bytes())
         return 'w_b58_roundtrip', [('in', data), ('u32', ob['L']), ('u32', ob['chk']), ('out', 300)], io, lambda ctx: dict(ok=1, back=list(data)), [], dict(data=data)
+    if k == 'b58dec':
+        cs = [var('c%d' % i) for i in range(ob['n'])]
+        assume = [c != 0 for c in cs] if sym else []
+        ALPHA = '123456789ABCDEFGHJKLMNPQRSTUVWXYZabcdefghijkmnopqrstuvwxyz'
+        def io(E, f, ret, outs):
+            if ret is None: return crash(f)
+            n = hlib.uniq(E, f, ret) if f is not None else ret
+            raw = outs[0](n); rp = sesslib.Rep(lambda off, n_: (hlib.le(raw[off:off + n_]) if n_ > 1 else raw[off]), (lambda t: hlib.uniq(E, f, t)) if f is not None else None)
+            ok = rp.u32(); back = rp.bytes()
+            return dict(ok=ok, back=back if (is_sym(ok) or ok) else '*')
+        def ref(ctx):
+            C = [R.B(c) for c in cs]; n = len(C); i = 0
+            sp = lambda c: z3.Or(c == 32, z3.And(z3.UGE(c, 9), z3.ULE(c, 13)))
+            while i < n and ctx.branch(sp(C[i])): i += 1
+            zeroes = 0
+            while i < n and ctx.branch(C[i] == ord('1')): zeroes += 1; i += 1
+            val = z3.BitVecVal(0, 32); nd = 0
+            while i < n and not ctx.branch(sp(C[i])):
+                d = z3.BitVecVal(255, 32)
+                for k_, ch in enumerate(ALPHA): d = z3.If(C[i] == ord(ch), z3.BitVecVal(k_, 32), d)
+                if ctx.branch(d == 255): return dict(ok=0, back='*')
+                val = z3.simplify(val * 58 + d); nd += 1; i += 1
+            while i < n and ctx.branch(sp(C[i])): i += 1
+            if i != n: return dict(ok=0, back='*')
+            out = [0] * zeroes
+            if nd:
+                # big-endian bytes of val without leading zero bytes (val < 58^3 < 2^24)
+                if ctx.branch(z3.UGE(val, 1 << 16)): nb = 3
+                elif ctx.branch(z3.UGE(val, 1 << 8)): nb = 2
+                elif ctx.branch(val != 0): nb = 1
+                else: nb = 0
+                out += [z3.simplify(z3.Extract(8 * (nb - 1 - j) + 7, 8 * (nb - 1 - j), val)) for j in range(nb)]
+            return dict(ok=1, back=out)
+        return 'w_b58_decode', [('in', cs + [0]), ('u32', 0), ('out', 300)], io, ref, assume, dict(chars=cs)
     if k == 'bech':
         vals = [var('v%d' % i) for i in range(ob['n'])]
         assume = [z3.ULT(v, 32) for v in vals] if sym else []
@@ -213,6 +252,39 @@ def run_b58chk(E, ob, V=None):
                 if ctx.branch(R.items_equal(chk, want)): return dict(ok=1, back=list(payload))
                 return dict(ok=0, back=[])
             return sesslib.diff_paths(E, ob['name'], [r[0] for r in runs], io, ref, [], dict(data=payload, chk=chk), lambda a, b: 'C14:base58check:decode-checksum')
+        elif ob['kind'] == 'addr2spk':
+            chk = [var('k%d' % i) for i in range(4)]
+            def dec_stub(E_, st, fr, I, A): vec_set(E_, st, A[1], payload + chk); return 1
+            E.stubs['_ZL12DecodeBase58PKcRSt6vectorIhSaIhEEi'] = dec_stub
+            runs = hlib.spec_engine(E, 'w_tf_expr', [('in', list(b'addr_to_spk(x)') + [0]), ('out', 400)])
+            m = {id(r[0]): r for r in runs}
+            def io(f):
+                _, ret, outs = m[id(f)]
+                if ret is None: return ('crash', f.result[1] if f.result else 'none', '')
+                d = parse_dump(E, f, outs[0](hlib.uniq(E, f, ret)))
+                return dict(data=d['data'])
+            def ref(ctx):
+                if not ctx.branch(R.items_equal(chk, hashref.hash256(payload)[:4])): return dict(data='*')          # decode failed: a diagnostic, the value is not prescribed
+                if L < 1: return dict(data='*')
+                body = payload[1:]                                                                                 # the version byte is dropped
+                return dict(data=[0x76, 0xa9] + [len(body)] + list(body) + [0x88, 0xac])
+            return sesslib.diff_paths(E, ob['name'], [r[0] for r in runs], io, ref, [], dict(data=payload, chk=chk), lambda a, b: 'C14:address:addr-to-scriptpubkey')
+        elif ob['kind'] == 'spk2addr':
+            def enc_stub(E_, st, fr, I, A):
+                sret, p, n = A
+                st.aux['b58in'] = [E_.load(st, p + i, 1) for i in range(n)]
+                E_.mk_empty_string(E_, st, sret); return None
+            E.stubs['_Z12EncodeBase58B5cxx114SpanIKhE'] = enc_stub
+            runs = hlib.spec_engine(E, 'w_tf_data', [('in', list(b'spk_to_addr') + [0]), ('in', payload), ('u32', L), ('out', 300)])
+            def io(f):
+                if f.result is None or f.result[0] != 'ret': return ('crash', f.result[1] if f.result else 'none', '')
+                return dict(encoded_input=f.aux.get('b58in', 'no-address'))
+            def ref(ctx):
+                ok = L == 25 and ctx.branch(z3.And(R.B(payload[0]) == 0x76, R.B(payload[1]) == 0xa9, R.B(payload[2]) == 0x14, R.B(payload[23]) == 0x88, R.B(payload[24]) == 0xac))
+                if not ok: return dict(encoded_input='no-address')
+                body = [0x00] + list(payload[3:23])
+                return dict(encoded_input=body + hashref.hash256(body)[:4])
+            return sesslib.diff_paths(E, ob['name'], [r[0] for r in runs], io, ref, [], dict(data=payload), lambda a, b: 'C14:address:scriptpubkey-to-addr')
         else:
             def enc_stub(E_, st, fr, I, A):
                 sret, p, n = A
@@ -231,13 +303,13 @@ def run_b58chk(E, ob, V=None):
             else: E.stubs[k] = v
 
 def run(E, ob):
-    if ob['kind'] in ('b58chk_dec', 'b58chk_enc'): return run_b58chk(E, ob)
+    if ob['kind'] in ('b58chk_dec', 'b58chk_enc', 'spk2addr', 'addr2spk'): return run_b58chk(E, ob)
     fn, spec, io, ref, assume, inputs = prep(ob)
     return hlib.flat_check(E, ob['name'], fn, spec, io, ref, assume, inputs, lambda a, b: 'C14:%s:%s' % (ob['kind'], ob.get('fun', '')) + (':group' if ob.get('grp') else ''))
 
 def values(ob, cex):
     V = {}
-    for nm, pfx in (('data', 'b'), ('a', 'a'), ('b', 'b'), ('g', 'g'), ('tag', 't'), ('msg', 'm'), ('vals', 'v')):
+    for nm, pfx in (('data', 'b'), ('a', 'a'), ('b', 'b'), ('g', 'g'), ('tag', 't'), ('msg', 'm'), ('vals', 'v'), ('chars', 'c')):
         for i, x in enumerate(cex.get(nm, [])): V['%s%d' % (pfx, i)] = x
     if 'repl' in cex: V['repl'] = cex['repl']
     return V
@@ -272,7 +344,7 @@ def validate(E, lib):
         class RV(dict):
             def get(s, k, d=0): return rnd.randrange(32) if k.startswith('v') else (ord('q') if k == 'repl' else rnd.randrange(256))
         V = RV()
-        if ob['kind'] in ('b58chk_dec', 'b58chk_enc'): continue          # these run with a stubbed digit conversion: nothing to compare natively
+        if ob['kind'] in ('b58chk_dec', 'b58chk_enc', 'spk2addr', 'addr2spk'): continue          # these run with a stubbed digit conversion: nothing to compare natively
         fn, spec, io, ref, assume, inputs = prep(ob, V)
         if ob['kind'] == 'arith' and ob['grp']: continue
         if fn == 'w_fn_tf':
